@@ -5,11 +5,11 @@ From PPP Require Import Base.Bytes Model.V2 Model.Builder Spec.V2Wire Spec.TlvWa
   Proofs.BytesFacts Proofs.Writer Proofs.BuilderRun Proofs.BuilderProps Proofs.RoundTrip.
 
 (* control bytes (through the crate's own BitOr impls), address bytes and the TLV section as raw
-   bytes -- well-formed or not -- or as a TypeLengthValues value *)
+   bytes -- well-formed or not -- or as a TypeLengthValues value, wherever its iteration cursor stands *)
 Theorem C13_raw : forall x h, wf_bytes x = true -> p2 x = Ok h ->
   let c := CNew (version_or_command (hcommand h)) (protocol_or_family (hprotocol h) (h_address_family h)) in
   brun c [WritePayload (PBytes (h_address_bytes h)); WritePayload (PBytes (h_tlv_bytes h))] = BOk (hbytes h)
-  /\ brun c [WritePayload (PBytes (h_address_bytes h)); WritePayload (PSection (h_tlv_bytes h))] = BOk (hbytes h).
+  /\ forall cursor, brun c [WritePayload (PBytes (h_address_bytes h)); WritePayload (PSection (h_tlv_bytes h) cursor)] = BOk (hbytes h).
 Proof. exact rebuild_raw. Qed.
 
 (* the decoded items, when the section is well-formed *)
@@ -37,7 +37,7 @@ Example C13_example :
   let x := SIG ++ [33; 17; 0; 15; 127; 0; 0; 1; 192; 168; 1; 1; 0; 80; 1; 187; 4; 0; 0; 9; 9] in
   match p2 x with
   | Ok h => brun (CWith (version_or_command (hcommand h)) (hprotocol h) (haddresses h))
-                 [WritePayload (PSection (h_tlv_bytes h))] = BOk (hbytes h) /\ lenN (hbytes h) = 31
+                 [WritePayload (PSection (h_tlv_bytes h) 0)] = BOk (hbytes h) /\ lenN (hbytes h) = 31
   | Err _ => False
   end.
 Proof. vm_compute. split; reflexivity. Qed.
